@@ -570,6 +570,6 @@ Definition bcdd_ok_b (s : snap) : bool :=
 
 Definition zbdd_ok_b (s : snap) : bool :=
   wf_b s && kind_eqb (s_kind s) KZbdd
-  && match assoc_N (map (fun p => (snd p, fst p)) (s_terms s)) 0 with Some _ => true | None => false end
-  && match assoc_N (map (fun p => (snd p, fst p)) (s_terms s)) 1 with Some _ => true | None => false end
-  && forallb (fun p => N.leb (snd p) 1) (s_terms s).
+  && forallb (fun p : N * N => N.leb (snd p) 1) (s_terms s)
+  && existsb (fun p : N * N => N.eqb (snd p) 0) (s_terms s)
+  && existsb (fun p : N * N => N.eqb (snd p) 1) (s_terms s).
